@@ -33,6 +33,11 @@ impl Language for Scala {
     ) -> std::io::Result<()> {
         self.begin_file(writable, &data)?;
 
+        // Constants cannot be generated for Scala: say so instead of dropping them silently.
+        for c in data.consts.iter() {
+            self.write_const(writable, c)?;
+        }
+
         // Package object to hold type aliases: aliases must be in class or object in Scala 2)
         let unsigned_used = self.unsigned_integer_used(&data);
         if unsigned_used || !data.aliases.is_empty() {
